@@ -91,8 +91,16 @@ type Frame struct {
 	Spec    *FuncSpec
 	Depth   int
 	OnReturn func(s *State, vals []Value) ([]*State, bool) // continuation run instead of binding the result (engine-built calls)
+	LoopFrames map[*ssa.BasicBlock]map[string]*loopFrame // user-declared loop frames to re-check at the back edge
 	LoopOld map[*ssa.BasicBlock]*Snapshot
 	LoopVariant map[*ssa.BasicBlock]string
+}
+
+type loopFrame struct {
+	start Term   // component value at the start of the (arbitrary) iteration
+	refs  []Term // references the loop may write
+	wm    Term   // watermark at loop entry
+	sort  string
 }
 
 type Snapshot struct {
@@ -163,6 +171,10 @@ func (f *Frame) cloneChain() *Frame {
 	n.LoopOld = make(map[*ssa.BasicBlock]*Snapshot, len(f.LoopOld))
 	for k, v := range f.LoopOld {
 		n.LoopOld[k] = v
+	}
+	n.LoopFrames = make(map[*ssa.BasicBlock]map[string]*loopFrame, len(f.LoopFrames))
+	for k, v := range f.LoopFrames {
+		n.LoopFrames[k] = v
 	}
 	n.LoopVariant = make(map[*ssa.BasicBlock]string, len(f.LoopVariant))
 	for k, v := range f.LoopVariant {
